@@ -46,6 +46,11 @@ CHECKS = {
    technique="TLA+ spec Sync.tla invariants NoLoss/NoDup/OnlyCommitted model-checked with TLC; simulated behaviours replayed on real devices + server; converged logs compared with the harness's own ledger of committed events; C02 predicate after every merge",
    text="Same specification and replay as C04. TLC checks NoLoss, NoDup, OnlyCommitted exhaustively on the model; in the replay the record streams must equal the spec's after every step (interleaving by timestamp, ties included), and at the end of settled behaviours every event committed on any device must occur in the converged server log exactly once (byte-identical independent events at least once) and nothing else; after every sync the served folder must equal the replay of its event log and the persisted vault (the merge replay path of C02).",
    note="As C04."),
+ "C14": dict(
+   level="model_checking", design="DESIGN.md 6.11, 7 (C14)",
+   technique="TLA+ spec Codec.tla over the value-shape schema CodecSchema.tla (74 stored / transmitted types, 21,153 shapes) model-checked with TLC (RoundTrip, Deterministic, Canonical); every shape TLC enumerates is instantiated on the real binary, protobuf and database-row codecs; the schema printed by TLC is cross-checked against the harness catalogue",
+   text="CodecSchema.tla lists per type the dimensions spanning its value space (every enum variant incl. all 15 secret kinds and all event kinds, each optional member, collection sizes 0/1/3/many, empty / ASCII / non-ASCII / control / 70 KB strings, zero / one / max numbers, timestamps at the boundaries, flags). Codec.tla encodes a value on two devices and decodes one encoding; TLC checks RoundTrip, Deterministic and Canonical on all shapes and prints each shape. The harness builds every shape five times independently and checks decode(encode(v)) = v (PartialEq, or a full projection where the type has none), byte-equal encodings of the independent builds, byte-equal re-encoding of every decoding, and absence of panics, for sos_core::encode/decode, WireEncodeDecode and EventRecordRow <-> EventRecord (in memory and through sqlite tables).",
+   note="The value space is the one spanned by the schema's dimensions; relay / pairing packets and the crate-private Auth type are not covered; determinism across processes is not compared. KNOWN-FINDINGs: RowDropsLastCommit, RowNegativeYear, SharedAccessCountU16."),
  "C16": dict(
    level="model_checking", design="DESIGN.md 6.4, 7 (C16)",
    technique="TLA+ spec Account.tla behaviours (TLC transition tour) replayed on LocalAccount; integrity report of the untampered account after every behaviour; single-bit corruption of every content region and removals enumerated on the final states (fault enumeration)",
